@@ -5,6 +5,7 @@ duplicates and never exceeds the replication limit; every listed prover has a re
 that refers back to that file.  Preserved by every message and by the reward block.
 -/
 import Canine.Proofs.StorageE
+import Canine.Generated.KeyFacts
 namespace Canine.Storage
 
 /-- The invariant, spelled out (`IndexInv` and `FileOK` are defined in `Canine/Proofs/StorageE.lean`;
@@ -333,4 +334,32 @@ example :
     s'.files.map (fun kv => kv.2.proofs.map (·.1)) = [[]] ∧ s'.proofs = [] ∧ s'.files2 = s'.files := by decide
 
 end C17Ex
+/-! ## The store keys as they stand in the source (regenerated fact) -/
+
+/-- The index-consistency theorems identify a file by (merkle, owner, start) and a proof by (prover, merkle, owner, start), which is sound only while the primary, secondary and proof keys stay injective encodings of those tuples (`C17_primaryKey_injective`, `C17_secondaryKey_injective`).  Fingerprints of the key constructors of x/storage/types/key*.go as the
+model was written against them; `Generated.keyFns_storage` is recomputed from the source on every
+run (the declarations are listed in Generated/KeyFacts.lean). -/
+def C17_expectedKeys : List (String × String) := [
+  ("x/storage/types/key_client_usage.go:ClientUsageKey", "dc7228a1f094ec09"),
+  ("x/storage/types/key_files.go:FilesPrimaryKey", "84e99d172d986bcc"),
+  ("x/storage/types/key_files.go:FilesMerklePrefix", "7144d5ed970c299c"),
+  ("x/storage/types/key_files.go:FilesOwnerPrefix", "b5fae699da92120b"),
+  ("x/storage/types/key_files.go:FilesSecondaryKey", "8701eb75a36b1a59"),
+  ("x/storage/types/key_files.go:ProofKey", "03b9d69bfd1ff699"),
+  ("x/storage/types/key_files.go:ProofPrefix", "c8769268c3e52544"),
+  ("x/storage/types/key_files.go:LegacyActiveDealsKey", "c4aeb0f020bffe73"),
+  ("x/storage/types/key_pay_blocks.go:PayBlocksKey", "77839ff6b75370dd"),
+  ("x/storage/types/key_payment_info.go:StoragePaymentInfoKey", "9176a7b3606c44ef"),
+  ("x/storage/types/key_payment_info.go:PaymentGaugeKey", "671fc2de1ec35857"),
+  ("x/storage/types/key_providers.go:ActiveProvidersKey", "c7775e72ba0d9346"),
+  ("x/storage/types/key_providers.go:ProvidersKey", "dbb47435d90d275b"),
+  ("x/storage/types/key_providers.go:AttestationKey", "22260edd874149f9"),
+  ("x/storage/types/key_providers.go:ReportKey", "9e44430f7ad376b5"),
+  ("x/storage/types/key_providers.go:CollateralKey", "63d6996a6cf1539e"),
+  ("x/storage/types/keys.go:gaugeName", "6c707ddfcf503004"),
+  ("x/storage/types/keys.go:GetGaugeAccount", "2648a826edaadd84"),
+  ("x/storage/types/keys.go:KeyPrefix", "caccc65e7667915d")]
+
+theorem C17_store_keys_as_modelled : Generated.keyFns_storage = C17_expectedKeys := by decide
+
 end Canine.Storage
